@@ -6,6 +6,8 @@ Property theorems only; helper lemmas live in `Proofs/PromFmt.lean`.  Everything
 family kinds — by induction, no sampling.
 -/
 import MetricsVerif.Proofs.PromFmt
+import MetricsVerif.Proofs.PromWhole
+import MetricsVerif.Generated.SourceFacts
 
 namespace MetricsVerif.C08
 open MetricsVerif.PromFmt MetricsVerif.PromRender MetricsVerif.Expo
@@ -325,7 +327,411 @@ theorem familyName_grammar (n : List Char) (hn : IsMetricName n = true) (u : Opt
     IsMetricName (familyName n u) = true := by
   exact fullName_grammar n hn none (by intro x hx; cases hx) u
 
+/-! ## 7. the whole render: every line the recorder writes, after any history, is one the reader accepts -/
+
+
+/-- a key as the property quantifies over it: non-empty metric name, non-empty label names -/
+def KeyOk (k : Prom.MKey) : Prop := k.name ≠ [] ∧ ∀ x ∈ k.labels, x.1 ≠ []
+
+/-- the operations of a history, on such keys -/
+def OpOk : Prom.Op → Prop
+  | .describe .. => True
+  | .cinc k _ | .cabs k _ | .gset k _ | .gadd k _ | .hrec k _ | .hrecMany k _ _ => KeyOk k
+  | .upkeep => True
+
+/-- what a series hands to the line writers -/
+def DataOk : SeriesData → Prop
+  | .scalar v => IsToken v = true
+  | .hist bs c sm => (∀ b ∈ bs, WF false b.1 ∧ IsToken b.2 = true) ∧ IsToken c = true ∧ IsToken sm = true
+  | .summ qs sm c => (∀ q ∈ qs, WF false q.1 ∧ IsToken q.2 = true) ∧ IsToken sm = true ∧ IsToken c = true
+
+def SeriesOk (s : Series) : Prop := LabelsOk s.labels ∧ DataOk s.data
+
+/-- invariant of the recorder state: every stored key is `KeyOk`, every distribution entry carries a
+    grammar-conforming name and accepted label strings; the configured global label names are non-empty and
+    the quantile texts are harmless label values -/
+structure Inv (s : Prom.St) : Prop where
+  globals : ∀ x ∈ s.cfg.globals, x.1 ≠ []
+  quantiles : ∀ q ∈ s.cfg.quantiles, WF false q
+  counters : ∀ kv ∈ s.counters, KeyOk kv.1
+  gauges : ∀ kv ∈ s.gauges, KeyOk kv.1
+  hists : ∀ kv ∈ s.hists, KeyOk kv.1
+  dists : ∀ f ∈ s.dists, IsMetricName f.1 = true ∧ ∀ ld ∈ f.2, LabelsOk ld.1
+
+theorem suffixOk_lit (x : List Char) (h : x.all nameChar = true) : SuffixOk (some x) := by
+  intro y hy; cases hy; exact h
+
+theorem seriesLines_ok (fam : List Char) (s : Series) (hf : IsMetricName fam = true) (hs : SeriesOk s) :
+    ∀ l ∈ seriesLines fam s, LineOk l := by
+  obtain ⟨hl, hd⟩ := hs
+  have hle : IsLabelName "le".toList = true := by decide
+  have hq : IsLabelName "quantile".toList = true := by decide
+  have hnone : SuffixOk none := by intro x hx; cases hx
+  have hbucket := suffixOk_lit "bucket".toList (by decide)
+  have hsum := suffixOk_lit "sum".toList (by decide)
+  have hcount := suffixOk_lit "count".toList (by decide)
+  have hnoextra : ∀ kt : List Char × List Char, (none : Option (List Char × List Char)) = some kt → LabelOk kt := by
+    intro kt h; cases h
+  intro l hl'
+  unfold seriesLines at hl'
+  cases hdat : s.data with
+  | scalar v =>
+    rw [hdat] at hl' hd
+    simp only [List.mem_singleton] at hl'
+    subst hl'
+    exact ⟨hf, hnone, hl, hnoextra, hd⟩
+  | hist bs c sm =>
+    rw [hdat] at hl' hd
+    obtain ⟨hb, hc, hsm⟩ := hd
+    simp only [List.mem_append, List.mem_map, List.mem_cons, List.not_mem_nil, or_false] at hl'
+    rcases hl' with ⟨b, hbm, rfl⟩ | rfl | rfl | rfl
+    · exact ⟨hf, hbucket, hl, (by intro kt h; cases h; exact ⟨hle, (hb b hbm).1⟩), (hb b hbm).2⟩
+    · refine ⟨hf, hbucket, hl, ?_, hc⟩
+      intro kt h; cases h
+      exact ⟨hle, wf_of_safe (by decide)⟩
+    · exact ⟨hf, hsum, hl, hnoextra, hsm⟩
+    · exact ⟨hf, hcount, hl, hnoextra, hc⟩
+  | summ qs sm c =>
+    rw [hdat] at hl' hd
+    obtain ⟨hqs, hsm, hc⟩ := hd
+    simp only [List.mem_append, List.mem_map, List.mem_cons, List.not_mem_nil, or_false] at hl'
+    rcases hl' with ⟨q, hqm, rfl⟩ | rfl | rfl
+    · exact ⟨hf, hnone, hl, (by intro kt h; cases h; exact ⟨hq, (hqs q hqm).1⟩), (hqs q hqm).2⟩
+    · exact ⟨hf, hsum, hl, hnoextra, hsm⟩
+    · exact ⟨hf, hcount, hl, hnoextra, hc⟩
+
+/-- **one family, all lines**: what the comment at `LineOk` promises.  For a grammar-conforming name, a type
+    word and series whose labels came out of `key_to_parts`, every line of the family — HELP (any description,
+    any unit, suffix on or off), TYPE, every sample, the blank line — satisfies `LineOk`. -/
+theorem renderFamily_ok (on : Bool) (name : List Char) (desc : Option (List Char × Option MUnit))
+    (ty : List Char) (series : List Series) (hn : IsMetricName name = true) (ht : isType ty = true)
+    (hs : ∀ s ∈ series, SeriesOk s) : ∀ l ∈ renderFamily on name desc ty series, LineOk l := by
+  intro l hl
+  have hfam : ∀ u, IsMetricName (familyName name u) = true := familyName_grammar name hn
+  unfold renderFamily at hl
+  simp only [List.mem_append, List.mem_cons, List.not_mem_nil, or_false, List.mem_flatMap] at hl
+  rcases hl with ((hl | rfl) | ⟨s, hsm, hl⟩) | rfl
+  · cases desc with
+    | none => simp at hl
+    | some du =>
+      simp only [List.mem_singleton] at hl
+      subst hl
+      exact hfam _
+  · exact ⟨hfam _, ht⟩
+  · exact seriesLines_ok _ s (hfam _) (hs s hsm) l hl
+  · trivial
+
+theorem isType_distType (cfg : Prom.Cfg) (n : List Char) : isType (Prom.distType cfg n) = true := by
+  unfold Prom.distType
+  split
+  · decide
+  · split <;> decide
+
+theorem distSeries_ok (qs : List (List Char)) (hq : ∀ q ∈ qs, WF false q) (labels : List (List Char))
+    (hl : LabelsOk labels) (d : Prom.Dist) : SeriesOk (Prom.distSeries qs labels d) := by
+  cases d with
+  | hist bounds counts count sum =>
+    refine ⟨hl, ?_, natText_token count, intTok_token sum⟩
+    intro b hb
+    simp only [List.mem_map] at hb
+    obtain ⟨bc, _, rfl⟩ := hb
+    exact ⟨wf_of_num (intTok_num bc.1), natText_token bc.2⟩
+  | summ count sum =>
+    refine ⟨hl, ?_, intTok_token sum, natText_token count⟩
+    intro q hqm
+    simp only [List.mem_map] at hqm
+    obtain ⟨q0, hq0, rfl⟩ := hqm
+    exact ⟨hq q0 hq0, (by show IsToken ['q'] = true; decide)⟩
+
+/-- families grouped from scalar entries: names conform, series are `SeriesOk` -/
+def FamsOk (fams : List (List Char × List Series)) : Prop :=
+  ∀ f ∈ fams, IsMetricName f.1 = true ∧ ∀ s ∈ f.2, SeriesOk s
+
+theorem groupFamilies_ok (entries : List (Prom.MKey × List Char)) (globals : List (List Char × List Char))
+    (hg : ∀ x ∈ globals, x.1 ≠ []) (he : ∀ kv ∈ entries, KeyOk kv.1 ∧ IsToken kv.2 = true) :
+    FamsOk (Prom.groupFamilies entries globals) := by
+  unfold Prom.groupFamilies
+  refine foldl_inv FamsOk (fun kv => KeyOk kv.1 ∧ IsToken kv.2 = true) _ entries ?_ [] ?_ he
+  · intro fams kv hf hk
+    have hp := keyToParts_ok kv.1.name kv.1.labels globals hk.1.1 hk.1.2 hg
+    show FamsOk (match keyToParts kv.1.name kv.1.labels globals with
+      | (name, labels) => Prom.upsert fams name [] (fun ss => ss ++ [⟨labels, .scalar kv.2⟩]))
+    rcases hkp : keyToParts kv.1.name kv.1.labels globals with ⟨name, labels⟩
+    rw [hkp] at hp
+    simp only []
+    intro f hfm
+    refine upsert_inv (fun n ss => IsMetricName n = true ∧ ∀ s ∈ ss, SeriesOk s) fams name []
+      _ hf ?_ ?_ f hfm
+    · refine ⟨hp.1, ?_⟩
+      intro s hs
+      simp only [List.nil_append, List.mem_singleton] at hs
+      subst hs
+      exact ⟨hp.2, hk.2⟩
+    · intro ss hss
+      refine ⟨hss.1, ?_⟩
+      intro s hs
+      simp only [List.mem_append, List.mem_singleton] at hs
+      rcases hs with h | rfl
+      · exact hss.2 s h
+      · exact ⟨hp.2, hk.2⟩
+  · intro f hf; cases hf
+
+theorem inv_drain (s : Prom.St) (h : Inv s) : Inv (Prom.drain s) := by
+  have hd : ∀ f ∈ (Prom.drain s).dists, IsMetricName f.1 = true ∧ ∀ ld ∈ f.2, LabelsOk ld.1 := by
+    unfold Prom.drain
+    simp only []
+    refine foldl_inv (fun ds : List (List Char × List (List (List Char) × Prom.Dist)) =>
+        ∀ f ∈ ds, IsMetricName f.1 = true ∧ ∀ ld ∈ f.2, LabelsOk ld.1)
+      (fun kh : Prom.MKey × List Int => KeyOk kh.1) _ s.hists ?_ s.dists h.dists h.hists
+    intro ds kh hds hk
+    have hp := keyToParts_ok kh.1.name kh.1.labels s.cfg.globals hk.1 hk.2 h.globals
+    rcases hkp : keyToParts kh.1.name kh.1.labels s.cfg.globals with ⟨name, labels⟩
+    rw [hkp] at hp
+    simp only []
+    intro f hfm
+    refine upsert_inv (fun n byLabels => IsMetricName n = true ∧ ∀ ld ∈ byLabels, LabelsOk ld.1) ds name []
+      _ hds ?_ ?_ f hfm
+    · refine ⟨hp.1, ?_⟩
+      intro ld hld
+      exact upsert_inv (fun ls _ => LabelsOk ls) [] labels _ _ (by intro x hx; cases hx) hp.2
+        (fun _ _ => hp.2) ld hld
+    · intro byLabels hbl
+      refine ⟨hbl.1, ?_⟩
+      intro ld hld
+      exact upsert_inv (fun ls _ => LabelsOk ls) byLabels labels _ _ hbl.2 hp.2 (fun _ _ => hp.2) ld hld
+  refine ⟨h.globals, h.quantiles, h.counters, h.gauges, ?_, hd⟩
+  intro kv hkv
+  simp only [Prom.drain, List.mem_map] at hkv
+  obtain ⟨kh, hkh, rfl⟩ := hkv
+  exact h.hists kh hkh
+
+theorem inv_init (cfg : Prom.Cfg) (hg : ∀ x ∈ cfg.globals, x.1 ≠ []) (hq : ∀ q ∈ cfg.quantiles, WF false q) :
+    Inv { cfg := cfg } :=
+  ⟨hg, hq, (by intro x hx; cases hx), (by intro x hx; cases hx), (by intro x hx; cases hx), (by intro x hx; cases hx)⟩
+
+/-- every operation on `KeyOk` keys keeps the invariant -/
+theorem inv_step (s : Prom.St) (op : Prom.Op) (h : Inv s) (ho : OpOk op) : Inv (Prom.step s op) := by
+  cases op with
+  | describe name unit desc =>
+    simp only [Prom.step]
+    split
+    · exact h
+    · exact ⟨h.globals, h.quantiles, h.counters, h.gauges, h.hists, h.dists⟩
+  | cinc k n =>
+    exact ⟨h.globals, h.quantiles,
+      upsert_inv (fun k _ => KeyOk k) s.counters k _ _ h.counters ho (fun _ _ => ho), h.gauges, h.hists, h.dists⟩
+  | cabs k n =>
+    exact ⟨h.globals, h.quantiles,
+      upsert_inv (fun k _ => KeyOk k) s.counters k _ _ h.counters ho (fun _ _ => ho), h.gauges, h.hists, h.dists⟩
+  | gset k v =>
+    exact ⟨h.globals, h.quantiles, h.counters,
+      upsert_inv (fun k _ => KeyOk k) s.gauges k _ _ h.gauges ho (fun _ _ => ho), h.hists, h.dists⟩
+  | gadd k n =>
+    exact ⟨h.globals, h.quantiles, h.counters,
+      upsert_inv (fun k _ => KeyOk k) s.gauges k _ _ h.gauges ho (fun _ _ => ho), h.hists, h.dists⟩
+  | hrec k v =>
+    exact ⟨h.globals, h.quantiles, h.counters, h.gauges,
+      upsert_inv (fun k _ => KeyOk k) s.hists k _ _ h.hists ho (fun _ _ => ho), h.dists⟩
+  | hrecMany k v n =>
+    exact ⟨h.globals, h.quantiles, h.counters, h.gauges,
+      upsert_inv (fun k _ => KeyOk k) s.hists k _ _ h.hists ho (fun _ _ => ho), h.dists⟩
+  | upkeep => exact inv_drain s h
+
+theorem inv_run (ops : List Prom.Op) : ∀ s, Inv s → (∀ op ∈ ops, OpOk op) → Inv (ops.foldl Prom.step s) :=
+  foldl_inv Inv OpOk Prom.step ops inv_step
+
+/-- **whole render, one state**: in a state satisfying the invariant, every line of every family `render`
+    writes satisfies `LineOk` -/
+theorem renderLines_ok (s : Prom.St) (h : Inv s) : ∀ fam ∈ (Prom.renderLines s).2, ∀ l ∈ fam, LineOk l := by
+  have hd := inv_drain s h
+  intro fam hfam l hl
+  simp only [Prom.renderLines, List.mem_append, List.mem_map] at hfam
+  rcases hfam with (⟨f, hf, rfl⟩ | ⟨f, hf, rfl⟩) | ⟨f, hf, rfl⟩
+  · have := groupFamilies_ok _ _ hd.globals (fun kv hkv => by
+      simp only [List.mem_map] at hkv
+      obtain ⟨kv0, hkv0, rfl⟩ := hkv
+      exact ⟨hd.counters kv0 hkv0, natText_token kv0.2⟩) f hf
+    exact renderFamily_ok _ _ _ _ _ this.1 (by decide) this.2 l hl
+  · have := groupFamilies_ok _ _ hd.globals (fun kv hkv => by
+      simp only [List.mem_map] at hkv
+      obtain ⟨kv0, hkv0, rfl⟩ := hkv
+      exact ⟨hd.gauges kv0 hkv0, valTok_token kv0.2⟩) f hf
+    exact renderFamily_ok _ _ _ _ _ this.1 (by decide) this.2 l hl
+  · have hf' := hd.dists f hf
+    refine renderFamily_ok _ _ _ _ _ hf'.1 (isType_distType _ _) ?_ l hl
+    intro sr hsr
+    simp only [List.mem_map] at hsr
+    obtain ⟨ld, hld, rfl⟩ := hsr
+    exact distSeries_ok _ hd.quantiles _ (hf'.2 ld hld) _
+
+/-- **whole render, any history** (clause "every line is a HELP, TYPE, sample or blank line", unbounded):
+    for every configuration with non-empty global label names, every history of
+    describe/update/upkeep operations on keys with non-empty names and label names — arbitrary Unicode
+    otherwise —, every line `render` writes is `LineOk`. -/
+theorem render_lines_ok (cfg : Prom.Cfg) (hg : ∀ x ∈ cfg.globals, x.1 ≠ []) (hq : ∀ q ∈ cfg.quantiles, WF false q)
+    (ops : List Prom.Op) (ho : ∀ op ∈ ops, OpOk op) :
+    ∀ l ∈ (Prom.renderLines (ops.foldl Prom.step { cfg := cfg })).2.flatten, LineOk l := by
+  intro l hl
+  simp only [List.mem_flatten] at hl
+  obtain ⟨fam, hfam, hl⟩ := hl
+  exact renderLines_ok _ (inv_run ops _ (inv_init cfg hg hq) ho) fam hfam l hl
+
+/-- what the independent reader makes of a line -/
+def ReadsBack : Line → Prop
+  | .help n d => parseHelp (Line.text (.help n d)) = some (n, sanitizeDescription d)
+  | .type n t => parseType (Line.text (.type n t)) = some (n, t)
+  | .sample n sfx ls e v => ∃ lbls : List (List Char × List Char), ls = lbls.map labelStr ∧
+      parseSample (Line.text (.sample n sfx ls e v)) = some ⟨fullName n sfx none, lbls ++ e.toList, v⟩
+  | .blank => Line.text .blank = ['\n']
+
+/-- a `LineOk` line is read back as exactly the HELP / TYPE / sample / blank line that was meant -/
+theorem line_reads_back (l : Line) (h : LineOk l) : ReadsBack l := by
+  cases l with
+  | help n d => exact help_roundtrip n h d
+  | type n t => exact type_roundtrip n h.1 t h.2
+  | blank => rfl
+  | sample n sfx ls e v =>
+    obtain ⟨hn, hs, ⟨lbls, rfl, hl⟩, he, hv⟩ := h
+    exact ⟨lbls, rfl, sample_roundtrip n hn sfx hs none lbls hl e he v hv⟩
+
+/-- **the rendered text, any history**: splitting the text `render` returns at newlines gives back exactly the
+    lines written, and the independent reader reads each of them as the HELP / TYPE / sample / blank line the
+    recorder meant — no user string starts a line, ends a value early or forges a sample, in any render of
+    any history. -/
+theorem render_text_wellformed (cfg : Prom.Cfg) (hg : ∀ x ∈ cfg.globals, x.1 ≠ [])
+    (hq : ∀ q ∈ cfg.quantiles, WF false q) (ops : List Prom.Op) (ho : ∀ op ∈ ops, OpOk op) :
+    let lines := (Prom.renderLines (ops.foldl Prom.step { cfg := cfg })).2.flatten
+    splitLines (renderText lines) = lines.map Line.text ∧ ∀ l ∈ lines, ReadsBack l := by
+  intro lines
+  have h := render_lines_ok cfg hg hq ops ho
+  exact ⟨text_splits_back lines h, fun l hl => line_reads_back l (h l hl)⟩
+
+/-! ## 8. distinct families: FALSE as stated; the part that holds -/
+
+/-- names of the TYPE lines, in order -/
+def typeNames (ls : List Line) : List (List Char) :=
+  ls.filterMap (fun l => match l with | .type n _ => some n | _ => none)
+
+def collisionCfg : Prom.Cfg := { unitSuffix := true, globals := [], buckets := none, overrides := [], quantiles := [] }
+
+/-- `describe_counter!("a", Unit::Bytes, "d"); counter!("a").increment(3); counter!("a_bytes").increment(3)` -/
+def collisionOps : List Prom.Op :=
+  [.describe "a".toList (some .bytes) "d".toList, .cinc ⟨"a".toList, []⟩ 3, .cinc ⟨"a_bytes".toList, []⟩ 3]
+
+/-- **"exactly one TYPE line per family" is false** under the property's precondition (distinct sanitised
+    names): with unit suffixes enabled, counter `a` described with `Unit::Bytes` and counter `a_bytes` are both
+    announced as `# TYPE a_bytes counter`.  Replayed on the real recorder by the harness
+    (c08.rs `run_adjacent`, first case) through the same `prom` ops. -/
+theorem type_lines_unique_false :
+    (∀ op ∈ collisionOps, OpOk op)
+    ∧ sanitizeMetricName "a".toList ≠ sanitizeMetricName "a_bytes".toList
+    ∧ typeNames (Prom.renderLines (collisionOps.foldl Prom.step { cfg := collisionCfg })).2.flatten
+        = ["a_bytes".toList, "a_bytes".toList] := by
+  refine ⟨?_, by decide, by decide⟩
+  intro op hop
+  simp only [collisionOps, List.mem_cons, List.not_mem_nil, or_false] at hop
+  rcases hop with rfl | rfl | rfl
+  · trivial
+  · exact ⟨by decide, by intro x hx; cases hx⟩
+  · exact ⟨by decide, by intro x hx; cases hx⟩
+
+/-- a family announces exactly one TYPE line, named `familyName` -/
+theorem renderFamily_typeNames (on : Bool) (name : List Char) (desc : Option (List Char × Option MUnit))
+    (ty : List Char) (series : List Series) :
+    typeNames (renderFamily on name desc ty series)
+      = [familyName name (match desc with | some (_, u) => if on then u else none | none => none)] := by
+  have hs : ∀ fam, typeNames (series.flatMap (seriesLines fam)) = [] := by
+    intro fam
+    unfold typeNames
+    rw [List.filterMap_eq_nil_iff]
+    intro l hl
+    simp only [List.mem_flatMap] at hl
+    obtain ⟨s, _, hl⟩ := hl
+    unfold seriesLines at hl
+    cases hd : s.data <;> rw [hd] at hl <;>
+      simp only [List.mem_append, List.mem_map, List.mem_cons, List.not_mem_nil, or_false] at hl
+    · subst hl; rfl
+    · rcases hl with ⟨b, _, rfl⟩ | rfl | rfl | rfl <;> rfl
+    · rcases hl with ⟨b, _, rfl⟩ | rfl | rfl <;> rfl
+  unfold renderFamily
+  cases desc with
+  | none =>
+    simp only [typeNames, List.nil_append, List.filterMap_append, List.filterMap_cons, List.filterMap_nil,
+      List.cons_append] at hs ⊢
+    simp [hs]
+  | some du =>
+    simp only [typeNames, List.filterMap_append, List.filterMap_cons, List.filterMap_nil,
+      List.cons_append, List.nil_append] at hs ⊢
+    simp [hs]
+
+/-- the part that holds: the unit suffix never merges two families that get the SAME suffix (in particular
+    with unit suffixes disabled, or two families without description) -/
+theorem familyName_injective_partial (a b : List Char) (u : Option MUnit)
+    (h : familyName a u = familyName b u) : a = b := by
+  unfold familyName fullName at h
+  simp only [List.append_nil] at h
+  exact List.append_cancel_right h
+
+theorem familyName_none (n : List Char) : familyName n none = n := by
+  simp [familyName, fullName, unitSuffix]
+
+/-! ## 9. source facts: what a run on ASCII-only or ordinary inputs cannot tell apart -/
+
+/-- obligation **src_char_classes**: the four character-class predicates of formatting.rs are written with
+    the ASCII tests the model (`validNameStart` … `validLabelChar`, via `Char.isAlpha`/`Char.isAlphanum`, which
+    are ASCII-only) encodes, no further classifying function exists, and the two sanitizers use them as
+    `start` / `rest` with `_` as the replacement. -/
+theorem src_char_classes :
+    Generated.fmt_valid_metric_name_start_character = "c.is_ascii_alphabetic() || c == '_' || c == ':'"
+    ∧ Generated.fmt_valid_metric_name_character = "c.is_ascii_alphanumeric() || c == '_' || c == ':'"
+    ∧ Generated.fmt_valid_label_key_start_character = "c.is_ascii_alphabetic() || c == '_'"
+    ∧ Generated.fmt_valid_label_key_character = "c.is_ascii_alphanumeric() || c == '_'"
+    ∧ Generated.fmt_char_class_fns = ["valid_metric_name_start_character", "valid_metric_name_character",
+        "valid_label_key_start_character", "valid_label_key_character"]
+    ∧ Generated.fmt_sanitize_metric_name_shape = ["valid_metric_name_start_character", "valid_metric_name_character", "_"]
+    ∧ Generated.fmt_sanitize_label_key_shape = ["valid_label_key_start_character", "valid_label_key_character", "_"] := by
+  decide
+
+/-- obligation **src_escape_arms**: the escaper matches on exactly newline, quote (label values only),
+    backslash, anything else — as `escGo` — and pushes only the three escape pairs -/
+theorem src_escape_arms :
+    Generated.fmt_escape_arms = ["'\\n'", "'\"' if !is_desc", "'\\\\'", "c"]
+    ∧ Generated.fmt_escape_pushes = ["\"\\\\n\"", "\"\\\\\\\"\"", "\"\\\\\\\\\"", "\"\\\\\\\\\"", "\"\\\\\\\\\""] := by
+  decide
+
+/-- obligation **src_unit_table**: `Unit::as_str` is the table `MUnit.asStr` in declaration order, and the
+    unit arms of `write_metric_line` and of `family_name` are those of `unitSuffix`
+    (`Count`/`None` nothing, `Percent` `_ratio`, otherwise `_` + `as_str`) -/
+theorem src_unit_table :
+    Generated.unit_as_str.map (·.2) = MUnit.all.map MUnit.asStr
+    ∧ Generated.unit_as_str.map (·.1) = ["Count", "Percent", "Seconds", "Milliseconds", "Microseconds",
+        "Nanoseconds", "Tebibytes", "Gibibytes", "Mebibytes", "Kibibytes", "Bytes", "TerabitsPerSecond",
+        "GigabitsPerSecond", "MegabitsPerSecond", "KilobitsPerSecond", "BitsPerSecond", "CountPerSecond"]
+    ∧ Generated.fmt_write_metric_line_unit_arms = ["Some(Unit::Count) | None", "Some(Unit::Percent)", "Some(unit)",
+        "pushes:", "'_'", "\"ratio\"", "'_'", "unit.as_str("]
+    ∧ Generated.prom_family_name_unit_arms = ["Some(Unit::Count) | None", "Some(Unit::Percent)", "Some(unit)",
+        "pushes:", "\"_ratio\"", "'_'", "unit.as_str("] := by
+  decide
+
+/-- `key_to_parts` removes duplicates on the RAW label name: two names that differ before and agree after
+    sanitising give a sample with the same label name twice (outside the property's precondition, which asks
+    for distinct sanitised label names; kept as a recorded oddity of the code) -/
+theorem parts_dup_label_witness :
+    (keyToParts "m".toList [("a.b".toList, "1".toList), ("a-b".toList, "2".toList)] []).2
+      = ["a_b=\"1\"".toList, "a_b=\"2\"".toList] := by decide
+
 /-! ## 6. non-vacuity: concrete hostile inputs satisfy the hypotheses and go through the reader -/
+
+example : (Prom.renderLines (collisionOps.foldl Prom.step { cfg := collisionCfg })).2.flatten.length = 7 := by decide
+
+example : ReadsBack (.sample "a_b".toList (some "bucket".toList) [formatLabel "k²".toList "v\"\\\n".toList]
+    (some ("le".toList, "+Inf".toList)) "3".toList) :=
+  line_reads_back _ ⟨by decide, suffixOk_lit _ (by decide),
+    ⟨[(sanitizeLabelKey "k²".toList, sanitizeLabelValue "v\"\\\n".toList)], by simp [formatLabel, labelStr],
+      by intro kt h; simp only [List.mem_singleton] at h; subst h
+         exact ⟨label_key_grammar "k²".toList (by decide), escape_wf_value _⟩⟩,
+    by intro kt h; cases h; exact ⟨by decide, wf_of_safe (by decide)⟩, by decide⟩
+
 
 example : parseSample (writeMetricLine (sanitizeMetricName "9lat{ency\n".toList) (some "bucket".toList)
       [formatLabel "a\"b".toList "x\"} 1\n# TYPE evil counter\\".toList] (some ("le".toList, "0.5".toList))
